@@ -106,15 +106,12 @@ def stmtJ : Front.Stmt → Json
   | .expr v => arr [Json.str "expr", pJ v]
   | .unsupported _ => arr [Json.str "unsupported"]
 
-/-- `c01.ast2ast`: `{args: [[name, arity | null]…], body: [stmt…]}` →
+/-- `c01.ast2ast`: `{args: [[name, annotation]…], body: [stmt…]}` →
 `{body, front, rules}` | `{exception: [type, key]}` | `{outside: why}` -/
 def ast2astOp (j : Json) : R Json := do
   let args ← (← (← j.getObjVal? "args").getArr?).toList.mapM fun e => do
     let p ← e.getArr?
-    let ar : Option Nat := match p[1]! with
-      | .null => none
-      | k => k.getNat?.toOption
-    return (← p[0]!.getStr?, ar)
+    return (← p[0]!.getStr?, ← parseE p[1]!)
   let body ← (← (← j.getObjVal? "body").getArr?).toList.mapM parseS
   -- which theorems of QV/Props/C01.lean cover this program (typed arguments `targs` / `ret` when the harness has them)
   let typed : Option (List (String × Front.Ty) × Front.Ty) :=
@@ -129,7 +126,10 @@ def ast2astOp (j : Json) : R Json := do
       | .ok x => some x
       | .error _ => none
     | _, _ => none
-  match ast2ast args body with
+  let retAnn ← (match j.getObjVal? "returns" with
+    | .ok r => parseOptE r
+    | .error _ => pure none)
+  match ast2ast args retAnn body with
   | .ok (out, rules) =>
     let cls : List (String × Json) :=
       match typed with
